@@ -10,7 +10,23 @@ from fractions import Fraction as Fr
 from common import *  # noqa
 
 PID = 'C15'
-T_CALL = 1.0
+T_CALL = 3.0
+import multiprocessing as _mp
+_CONFIRMED = _mp.Value('i', 0)     # confirmed (twice timed-out) calls of this run, shared with the forked pool workers
+GIVE_UP_AFTER = 4
+
+
+def wcall(f, *a, **k):
+    """watchdog call whose timeout is a verdict: a timeout is re-tried once with 10x the budget (common.call retry=10) so that
+    a single wall-clock stall of a loaded machine cannot become a break; once GIVE_UP_AFTER calls have timed out twice the
+    verdict is settled and the remaining calls of the run are not started (keeps a hanging tree from costing 33 s per call)."""
+    if _CONFIRMED.value >= GIVE_UP_AFTER:
+        return ('timeout', None)
+    r = call(f, *a, t=T_CALL, retry=10, **k)
+    if r[0] == 'timeout':
+        with _CONFIRMED.get_lock():
+            _CONFIRMED.value += 1
+    return r
 
 # ------------------------------------------------------------------ oracles (no numpy matrix peeling here)
 
@@ -174,8 +190,8 @@ def run_job(job):
         prev = None
         for k in ks:
             A_in = Af.copy()
-            r = call(f, A_in, k, True, t=T_CALL)
-            r2 = call(f, Af.copy(), k, t=T_CALL) if r[0] != 'timeout' else r
+            r = wcall(f, A_in, k, True)
+            r2 = wcall(f, Af.copy(), k) if r[0] != 'timeout' else r
             out['evals'] += 1
             st(r[0])
             if r[0] == 'timeout' or r2[0] == 'timeout':
@@ -267,7 +283,7 @@ def run_job(job):
         cores, _ = float_subset_cores(Af, ss)
         full = Af.sum(axis=0)
         for s_ in ss:
-            r = call(bct.score_wu, Af.copy(), s_, t=T_CALL)
+            r = wcall(bct.score_wu, Af.copy(), s_)
             out['evals'] += 1
             st(r[0])
             if r[0] == 'timeout':
@@ -303,7 +319,7 @@ def run_job(job):
         cores = oracle_cores('wu', Aq, ss)
         prev = None
         for s in ss:
-            r = call(bct.score_wu, Af.copy(), float(s), t=T_CALL)
+            r = wcall(bct.score_wu, Af.copy(), float(s))
             out['evals'] += 1
             st(r[0])
             if r[0] == 'timeout':
@@ -343,7 +359,7 @@ def run_job(job):
     base = kind[2:]                       # 'bu' / 'bd'
     func = 'kcoreness_centrality_' + base
     Af = represent(A, job.get('rep'))
-    r = call(getattr(bct, func), Af.copy(), t=T_CALL * 2)
+    r = wcall(getattr(bct, func), Af.copy())
     out['evals'] += 1
     st(r[0])
     if r[0] == 'timeout':
@@ -574,7 +590,7 @@ def main():
         for t in r['timeouts']:
             ntimeouts += 1
             if ntimeouts <= 3:   # the model provably terminates (fuel n suffices), so a hang is a divergence from the model
-                ck.corr_break('bct routine hit the %.0f s watchdog although the Core model terminates' % T_CALL, {'job': job, 'call': t})
+                ck.corr_break('bct routine timed out twice (%.0f s, then %.0f s) although the Core model terminates' % (T_CALL, 10 * T_CALL), {'job': job, 'call': t})
         for ln, ex, fn in r['lines']:
             lines.append(ln); exps.append(ex); funcs.append(fn)
     if ok:
